@@ -14,8 +14,8 @@ import (
 
 type c15R = *rand.Rand
 
-func c15Pick[T any](r c15R, xs []T) T { return xs[r.IntN(len(xs))] }
-func c15Chance(r c15R, p float64) bool  { return r.Float64() < p }
+func c15Pick[T any](r c15R, xs []T) T  { return xs[r.IntN(len(xs))] }
+func c15Chance(r c15R, p float64) bool { return r.Float64() < p }
 
 // ---------------------------------------------------------------------------------------------
 // byte strings
